@@ -408,10 +408,12 @@ func c13Pipe(r *Rng, tier string, o *Out) {
 		panic(err)
 	}
 	mats := make([]string, nch)
+	matK := make([]int, nch)
 	for ch := 0; ch < nch; ch++ {
 		mats[ch] = "pb 0"
 		if r.Chance(60) {
 			k := r.Range(1, 8)
+			matK[ch] = k
 			proj, basis := c13Matrices(r, k, nsamp)
 			if err := vs.VerifConfigureProjectorsBases(ch, k, nsamp, proj, basis); err != nil {
 				panic(err)
@@ -440,6 +442,22 @@ func c13Pipe(r *Rng, tier string, o *Out) {
 			for _, rec := range recs[ch] {
 				o.Case("src pipe npre %d cfgnpre %d nsamp %d signed %d data %s %s %s", rec.Presamples, npre, nsamp, b2i(rec.Signed),
 					ints(rec.Data), mats[ch], c13Out(rec, false))
+			}
+		}
+		// between blocks: a revised model for some channels - usually the same shape, and always the same description
+		// (the hook's); the following records must be analysed with the model loaded last
+		for ch := 0; ch < nch; ch++ {
+			if r.Chance(25) {
+				k := r.Range(1, 8)
+				if matK[ch] > 0 && r.Chance(70) {
+					k = matK[ch]
+				}
+				proj, basis := c13Matrices(r, k, nsamp)
+				if err := vs.VerifConfigureProjectorsBases(ch, k, nsamp, proj, basis); err != nil {
+					panic(err)
+				}
+				mats[ch] = c13Mats(k, nsamp, proj, nsamp, k, basis)
+				matK[ch] = k
 			}
 		}
 	}
@@ -783,6 +801,100 @@ func c13Balanced(r *Rng, tier string, o *Out) {
 	o.Case("src direct-zero-%s npre %d cfgnpre %d nsamp %d signed %d data %s %s %s", name, npre, npre, n, b2i(signed), ints(data), pb, c13Out(rec, setErr))
 }
 
+// c13History: several requests on ONE processor.  A model A is loaded and a record analysed; then further requests -
+// a revised model of the SAME shape under the SAME description (different content), the same under another
+// description, a model with another number of components, an incompatible one (refused: the old one stays), removal
+// and re-loading, a pulse-length request (same lengths: model kept; other lengths: model dropped) - each followed by
+// the analysis of a new record.  Each analysis is one case whose model is the LAST one the real code reported as loaded.
+func c13History(r *Rng, tier string, o *Out) {
+	npre := r.Pick(3, 4, 6, r.Range(3, 40))
+	npost := r.Pick(1, 3, 8, r.Range(1, 80))
+	n := npre + npost
+	signed := r.Bool()
+	vp := dastard.NewVerifProcessor(npre, n)
+	cur := "pb 0"
+	curK := 0
+	desc := r.Intn(3)
+	descs := []string{"verif", "", "model made 2026-09-28, 3 components"}
+	load := func(k, rows int, d string) bool { // rows = number of projector columns = basis rows
+		var proj, basis []float64
+		if rows == n {
+			proj, basis = c13Matrices(r, k, n)
+		} else {
+			proj = make([]float64, k*rows)
+			basis = make([]float64, rows*k)
+			for i := range proj {
+				proj[i] = float64(r.Range(-2, 2))
+			}
+			for i := range basis {
+				basis[i] = float64(r.Range(-2, 2))
+			}
+		}
+		if err := vp.SetProjectorsBasis(k, rows, proj, rows, k, basis, d); err != nil {
+			return false
+		}
+		cur = c13Mats(k, rows, proj, rows, k, basis)
+		curK = k
+		return true
+	}
+	analyse := func(step string) {
+		data, kind := c13Record(r, n, npre, signed, -1)
+		in := append([]dastard.RawType{}, data...)
+		rec := vp.Analyze(npre, signed, in)
+		o.Case("src hist-%s:%s npre %d cfgnpre %d nsamp %d signed %d data %s %s %s", step, kind, npre, npre, n, b2i(signed), ints(data), cur, c13Out(rec, false))
+	}
+	k := r.Range(1, 8)
+	load(k, n, descs[desc])
+	analyse("first")
+	steps := r.Range(1, 3)
+	for st := 0; st < steps; st++ {
+		kk := curK
+		if kk == 0 {
+			kk = k
+		}
+		switch r.Intn(9) {
+		case 0, 1, 2:
+			load(kk, n, descs[desc])
+			analyse("same-shape-same-desc")
+		case 3:
+			desc = (desc + 1) % len(descs)
+			load(kk, n, descs[desc])
+			analyse("same-shape-other-desc")
+		case 4:
+			load(r.Range(1, 8), n, descs[desc])
+			analyse("other-nbases")
+		case 5:
+			load(r.Range(1, 4), n+r.Pick(-1, 1, 2), descs[desc]) // must be refused; if it is accepted the model disagrees (seterr)
+			analyse("refused-keeps-old")
+		case 6:
+			vp.RemoveProjectorsBasis()
+			cur, curK = "pb 0", 0
+			analyse("removed")
+			load(k, n, descs[desc]) // the same description after a removal must load again
+			analyse("reloaded-after-removal")
+		case 7:
+			if err := vp.ConfigurePulseLengths(n, npre); err != nil {
+				panic(err)
+			}
+			analyse("same-lengths-keep-model")
+		default:
+			npre2 := npre + r.Pick(-1, 1, 2)
+			if npre2 < 3 {
+				npre2 = npre + 1
+			}
+			n2 := npre2 + npost + r.Pick(0, 1)
+			if err := vp.ConfigurePulseLengths(n2, npre2); err != nil {
+				panic(err)
+			}
+			npre, n = npre2, n2
+			cur, curK = "pb 0", 0
+			analyse("new-lengths-drop-model")
+			load(r.Range(1, 8), n, descs[desc])
+			analyse("loaded-after-new-lengths")
+		}
+	}
+}
+
 func genC13(r *Rng, tier string, o *Out) {
 	c13Fixed(o)
 	n := 520
@@ -790,7 +902,9 @@ func genC13(r *Rng, tier string, o *Out) {
 		n = 2500
 	}
 	for o.n < n {
-		if r.Chance(10) {
+		if r.Chance(6) {
+			c13History(r, tier, o)
+		} else if r.Chance(10) {
 			c13Balanced(r, tier, o)
 		} else if r.Chance(12) {
 			c13DCFree(r, tier, o)
